@@ -68,11 +68,22 @@ func alphabet() []storex.Letter {
 	return ls
 }
 
+// the exhaustive scope differs per seed (the thorough tier runs three seeds): session behaviours and
+// lock delay of the two sessions the words use
+var variant int
+
 func preamble() []*storex.Op {
+	b1, b2, delay := "release", "delete", 0
+	switch variant {
+	case 1:
+		b1, b2 = "delete", "release"
+	case 2:
+		b2, delay = "release", 15
+	}
 	return []*storex.Op{
 		{Kind: "reg", Reg: &storex.RegArg{Node: storex.NodeArg{Name: "n1", ID: storex.NodeIDs[1], Addr: "10.0.0.1"}}},
-		{Kind: "sc", Sess: &storex.SessArg{ID: storex.Sessions[0], Node: "n1", Behavior: "release"}},
-		{Kind: "sc", Sess: &storex.SessArg{ID: storex.Sessions[1], Node: "n1", Behavior: "delete"}},
+		{Kind: "sc", Sess: &storex.SessArg{ID: storex.Sessions[0], Node: "n1", Behavior: b1, LockDelay: delay}},
+		{Kind: "sc", Sess: &storex.SessArg{ID: storex.Sessions[1], Node: "n1", Behavior: b2}},
 	}
 }
 
@@ -99,6 +110,8 @@ func main() {
 	mons := func() []storex.Monitor { return []storex.Monitor{&storex.RefMap{}} }
 	corpus(run, mons)
 	storex.RandomHistories(run, []*storex.Profile{kvHeavy, lockHeavy, kvMalformed}, run.Scale(400, 3000), 30, mons, true)
+	variant = int((run.Seed / 7) % 3)
+	run.Tag("exhaustive-variant:" + string(rune('0'+variant)))
 	storex.Exhaustive(run, preamble, alphabet(), run.Scale(2, 3), mons, run.Thorough())
 	run.Finish()
 }
